@@ -94,6 +94,10 @@ def template_sinks(body):
             idx = 3 if ls == "replacen" else 2
             if len(a) > idx:
                 out.append((bb, a[idx], "%s template" % sc))
+        elif ls == "expand" and "Captures" in c:
+            a = body.call_args(bb)
+            if len(a) > 1:
+                out.append((bb, a[1], "Captures::expand template"))
         elif sc == "libs::re::replace_all":
             a = body.call_args(bb)
             if len(a) > 2:
